@@ -117,6 +117,49 @@ impl Comments<'_> {
   }
 }
 
+/// Whether the last line of `s` ends in a `; comment` (a `;` outside text and
+/// byte string literals). Anything written after such a line without a line
+/// break in between would become part of the comment.
+#[cfg(feature = "ast-comments")]
+fn ends_in_comment(s: &str) -> bool {
+  let last = s.trim_end().rsplit('\n').next().unwrap_or("");
+  let mut quote: Option<char> = None;
+  let mut chars = last.chars();
+  while let Some(c) = chars.next() {
+    match quote {
+      Some(q) => {
+        if c == '\\' {
+          chars.next();
+        } else if c == q {
+          quote = None;
+        }
+      }
+      None => match c {
+        '"' | '\'' => quote = Some(c),
+        ';' => return true,
+        _ => {}
+      },
+    }
+  }
+  false
+}
+
+/// `s.trim_end()`, except that the line break that terminates a trailing
+/// comment is kept.
+#[cfg(feature = "ast-comments")]
+fn trim_end_keep_comment(s: &str) -> String {
+  let mut t = s.trim_end().to_string();
+  if ends_in_comment(&t) {
+    t.push('\n');
+  }
+  t
+}
+
+#[cfg(not(feature = "ast-comments"))]
+fn trim_end_keep_comment(s: &str) -> String {
+  s.trim_end().to_string()
+}
+
 #[cfg(feature = "ast-comments")]
 impl fmt::Display for Comments<'_> {
   fn fmt(&self, f: &mut fmt::Formatter) -> fmt::Result {
@@ -2053,10 +2096,13 @@ impl fmt::Display for Group<'_> {
     for (idx, gc) in self.group_choices.iter().enumerate() {
       let mut gc_str = gc.to_string();
 
+      // Joining the lines of a choice that holds a comment would turn what
+      // follows the comment into comment text
       #[cfg(feature = "ast-comments")]
       if self.group_choices.len() > 2
         && gc.group_entries.len() <= 3
         && !gc.has_entries_with_comments_before_comma()
+        && !gc_str.lines().any(ends_in_comment)
       {
         gc_str = gc_str.replace('\n', "");
       }
@@ -2076,7 +2122,7 @@ impl fmt::Display for Group<'_> {
           #[cfg(feature = "ast-comments")]
           if self.group_choices.len() > 2 && gc.has_entries_with_comments_before_comma() {
             gc_str = gc_str.replace('\n', "\n\t\t");
-            group_str.push_str(gc_str.trim());
+            group_str.push_str(&trim_end_keep_comment(gc_str.trim_start()));
           } else {
             group_str.push_str(gc_str.trim_start());
           }
@@ -2096,7 +2142,7 @@ impl fmt::Display for Group<'_> {
         continue;
       }
 
-      gc_str = gc_str.trim().to_string();
+      gc_str = trim_end_keep_comment(gc_str.trim_start());
 
       #[cfg(feature = "ast-comments")]
       if self.group_choices.len() > 2 && gc.has_entries_with_comments_before_comma() {
@@ -2106,7 +2152,7 @@ impl fmt::Display for Group<'_> {
       if self.group_choices.len() <= 2 {
         let _ = write!(group_str, "// {} ", gc_str);
       } else {
-        let _ = writeln!(group_str, "\t// {}", gc_str);
+        let _ = writeln!(group_str, "\t// {}", gc_str.trim_end());
       }
     }
 
@@ -2388,16 +2434,16 @@ impl fmt::Display for GroupChoice<'_> {
         } else if entries_with_comment_before_comma[idx].1 {
           let _ = write!(gc_str, ", {}", ge.0);
         } else if idx != self.group_entries.len() - 1 {
-          let _ = writeln!(gc_str, ", {}", ge.0.to_string().trim_end());
+          let _ = writeln!(gc_str, ", {}", trim_end_keep_comment(&ge.0.to_string()).trim_end());
         } else {
-          let _ = write!(gc_str, ", {}", ge.0.to_string().trim_end());
+          let _ = write!(gc_str, ", {}", trim_end_keep_comment(&ge.0.to_string()));
         }
       } else {
         let _ = write!(
           gc_str,
           "{}{}",
-          ge.0.to_string().trim_end(),
-          ge.1.to_string().trim_end()
+          trim_end_keep_comment(&ge.0.to_string()),
+          trim_end_keep_comment(&ge.1.to_string())
         );
 
         // if idx != self.group_entries.len() - 1 {
@@ -2414,8 +2460,8 @@ impl fmt::Display for GroupChoice<'_> {
         let _ = write!(
           gc_str,
           "{}{}",
-          ge.0.to_string().trim_end(),
-          ge.1.to_string().trim_end()
+          trim_end_keep_comment(&ge.0.to_string()),
+          trim_end_keep_comment(&ge.1.to_string())
         );
 
         // if idx != self.group_entries.len() - 1 {
